@@ -38,6 +38,11 @@ type SCase struct {
 	// created first.
 	Steps []HStep `json:"steps,omitempty"`
 	After Node    `json:"after"`
+	// GrowFirst: after the compaction the new generation first outgrows the old
+	// head and only then a revision is created and restored (no server-side
+	// build in between); otherwise the old revision is restored right after
+	// the compaction, too.
+	GrowFirst bool `json:"grow_first,omitempty"`
 }
 
 var (
@@ -241,7 +246,7 @@ func evalServer(c SCase) (fail *kit.Failure, ev map[string]int, sh *shape) {
 			return nil, ev, sh
 		}
 	}
-	if err := cl.Sync(ctx); err != nil {
+	if err := cl.Sync(ctx, client.WithKey(k)); err != nil {
 		return harnessFail("sync 1: %v", err), ev, sh
 	}
 	want, fail := exportYSON(d)
@@ -263,7 +268,7 @@ func evalServer(c SCase) (fail *kit.Failure, ev map[string]int, sh *shape) {
 	if err := setRoot(d, c.After.YSON().(yson.Object), true); err != nil {
 		return kit.Failf("IMPORT-ERROR", "SetYSON of an accepted literal fails: %v", err), ev, sh
 	}
-	if err := cl.Sync(ctx); err != nil {
+	if err := cl.Sync(ctx, client.WithKey(k)); err != nil {
 		return harnessFail("sync 2: %v", err), ev, sh
 	}
 
@@ -285,8 +290,8 @@ func evalServer(c SCase) (fail *kit.Failure, ev map[string]int, sh *shape) {
 		if err != nil {
 			return kit.Failf("RESTORE-ERROR", "revisions.Restore fails: %v\nsnapshot: %s", err, clip(rev.Snapshot)), ev, sh
 		}
-		if err := cl.Sync(ctx); err != nil {
-			return harnessFail("sync 3: %v", err), ev, sh
+		if err := cl.Sync(ctx, client.WithKey(k)); err != nil {
+			return kit.Failf("RESTORE-SYNC-ERROR", "the client cannot synchronise after revisions.Restore (sync 3): %v", err), ev, sh
 		}
 		got, fail := exportYSON(d)
 		if fail != nil {
@@ -341,7 +346,7 @@ func evalServer(c SCase) (fail *kit.Failure, ev map[string]int, sh *shape) {
 
 	// the revision outlives the compaction: restoring it afterwards (the
 	// document is in its next generation now) still yields its content
-	if !restoreExcluded {
+	if !restoreExcluded && !c.GrowFirst {
 		if err := setRoot(d2, c.After.YSON().(yson.Object), true); err != nil {
 			return kit.Failf("IMPORT-ERROR", "SetYSON of an accepted literal fails: %v", err), ev, sh
 		}
@@ -351,7 +356,7 @@ func evalServer(c SCase) (fail *kit.Failure, ev map[string]int, sh *shape) {
 		}); err != nil {
 			return harnessFail("edit after compaction: %v", err), ev, sh
 		}
-		if err := cl.Sync(ctx); err != nil {
+		if err := cl.Sync(ctx, client.WithKey(k)); err != nil {
 			return harnessFail("sync 4: %v", err), ev, sh
 		}
 		err, panicked := guarded(func() error { return revisions.Restore(ctx, s.BE, proj, rev.ID) })
@@ -362,8 +367,8 @@ func evalServer(c SCase) (fail *kit.Failure, ev map[string]int, sh *shape) {
 		if err != nil {
 			return kit.Failf("RESTORE-ERROR", "revisions.Restore after a compaction fails: %v\nsnapshot: %s", err, clip(rev.Snapshot)), ev, sh
 		}
-		if err := cl.Sync(ctx); err != nil {
-			return harnessFail("sync 5: %v", err), ev, sh
+		if err := cl.Sync(ctx, client.WithKey(k)); err != nil {
+			return kit.Failf("RESTORE-SYNC-ERROR", "the client cannot synchronise after revisions.Restore (sync 5): %v", err), ev, sh
 		}
 		got, fail := exportYSON(d2)
 		if fail != nil {
@@ -374,6 +379,71 @@ func evalServer(c SCase) (fail *kit.Failure, ev map[string]int, sh *shape) {
 				diff, clip(rev.Snapshot)), ev, sh
 		}
 		ev["restore_after_compaction_checked"] = 1
+	}
+	if !restoreExcluded {
+		// the new generation outgrows the old head; a revision created NOW is
+		// built by the server from whatever its caches hold, and restoring it
+		// must bring back the content present at its creation
+		di2, err := documents.FindDocInfoByKey(ctx, s.BE, proj, k)
+		if err != nil {
+			return harnessFail("docinfo: %v", err), ev, sh
+		}
+		for i := int64(0); di2.ServerSeq+i <= di.ServerSeq+2; i++ {
+			if err := d2.Update(func(r *json.Object, p *presence.Presence) error {
+				r.SetInteger("grow", int(i))
+				return nil
+			}); err != nil {
+				return harnessFail("grow edit: %v", err), ev, sh
+			}
+			if err := cl.Sync(ctx, client.WithKey(k)); err != nil {
+				return harnessFail("sync 6: %v", err), ev, sh
+			}
+		}
+		want2, fail := exportYSON(d2)
+		if fail != nil {
+			return fail, ev, sh
+		}
+		if sh2 := classify(want2); (len(sh2.exclusionList()) > 0 || sh2.sub["counter_dedup_nonempty"]) && !kit.NoExclusions() {
+			for _, e := range sh2.exclusionList() {
+				ev["excluded:"+e] = 1
+			}
+			return nil, ev, sh
+		}
+		di2, err = documents.FindDocInfoByKey(ctx, s.BE, proj, k)
+		if err != nil {
+			return harnessFail("docinfo: %v", err), ev, sh
+		}
+		rev2, err := revisions.Create(ctx, s.BE, di2.RefKey(), "r2", "")
+		if err != nil {
+			return kit.Failf("REVISION-CREATE-ERROR", "revisions.Create on the compacted and regrown document fails: %v", err), ev, sh
+		}
+		if err := d2.Update(func(r *json.Object, p *presence.Presence) error {
+			r.SetString("afterRevision2", "y")
+			r.Delete("grow")
+			return nil
+		}); err != nil {
+			return harnessFail("edit after revision 2: %v", err), ev, sh
+		}
+		if err := cl.Sync(ctx, client.WithKey(k)); err != nil {
+			return harnessFail("sync 7: %v", err), ev, sh
+		}
+		err, panicked := guarded(func() error { return revisions.Restore(ctx, s.BE, proj, rev2.ID) })
+		s.WaitIdle()
+		if panicked || err != nil {
+			return kit.Failf("RESTORE-ERROR", "revisions.Restore of a revision created after compaction and regrowth fails: %v\nsnapshot: %s", err, clip(rev2.Snapshot)), ev, sh
+		}
+		if err := cl.Sync(ctx, client.WithKey(k)); err != nil {
+			return kit.Failf("RESTORE-SYNC-ERROR", "the client cannot synchronise after revisions.Restore (sync 8): %v", err), ev, sh
+		}
+		got2, fail := exportYSON(d2)
+		if fail != nil {
+			return fail, ev, sh
+		}
+		if diff := ysonDiff("$", want2, got2); diff != "" {
+			return kit.Failf("RESTORE-DIFF", "content after restoring a revision created after compaction and regrowth (old head %d, head at creation %d) differs from the content at its creation at %s\nsnapshot: %s",
+				di.ServerSeq, di2.ServerSeq, diff, clip(rev2.Snapshot)), ev, sh
+		}
+		ev["revision_after_regrowth_checked"] = 1
 	}
 	return nil, ev, sh
 }
@@ -403,6 +473,7 @@ func TestC18Server(t *testing.T) {
 			c.Steps = rapid.SliceOfN(genHStep(editPool), 1, 10).Draw(rt, "steps")
 		}
 		c.After = after.Draw(rt, "after")
+		c.GrowFirst = rapid.Bool().Draw(rt, "growfirst")
 		fail, ev, sh := evalServer(c)
 		sh.classes(ev)
 		col.Record(hashJSON(c), fail == nil && sh.nonTrivial() && ev["restore_checked"] > 0, ev, func() any { return literalSample(c.Lit, sh) })
